@@ -36,7 +36,7 @@ def tlc_encodings(ctx):
     res = vlib.tlc_must_pass(ctx, os.path.join(SPEC, 'MC_Chunked.tla'), os.path.join(SPEC, 'MC_Chunked_enc_%s.cfg' % sfx),
                              timeout=3000, label='mc-enc', env=TLC_ENV)
     encs = []
-    for m in re.finditer(r'<<"ENC", "<<([\d, ]*)>>">>', res.out):
+    for m in re.finditer(r'<<\s*"ENC",\s*"<<([\d, ]*)>>"\s*>>', res.out):
         encs.append(bytes(int(x) for x in m.group(1).split(',') if x.strip()))
     encs = sorted(set(encs))
     if len(encs) < 100:
@@ -311,6 +311,7 @@ def classify(o):
 
 
 def run(ctx):
+    os.environ.update(TLC_ENV)   # deep recursion of the reference decoder (one level per chunk and stage) needs a larger Java stack
     exe = ucheck.build_like_test(ctx, 'chunked', 'testHttp1Parser', ['u_chunked.cc', 'uhelp.cc'], add=['src/SquidConfig.cc'])
     ctx.log('driver built')
     encs = tlc_encodings(ctx)
@@ -322,8 +323,8 @@ def run(ctx):
                       {'class': {'kind': 'abort'}, 'input_hex': hx(cases[idx][1]), 'relaxed': cases[idx][0], 'runs': cases[idx][2]})
     live = [i for i, o in enumerate(outs) if o is not None]
     recs = [project(outs[i]) for i in live]
-    nruns = sum(len(o['runs']) for o in recs)
-    nsteps = sum(len(r['steps']) for o in recs for r in o['runs'])
+    nruns = sum(len(r['caps']) for o in recs for r in o['runs'])
+    nsteps = sum(len(r['steps']) * len(r['caps']) for o in recs for r in o['runs'])
     ctx.log('driver evaluated %d inputs, %d delivery schedules, %d parse rounds' % (len(recs), nruns, nsteps))
     # small cases in large chunks, large cases in small ones
     small = [j for j, o in enumerate(recs) if len(o['in']) <= 400]
@@ -350,7 +351,7 @@ def run(ctx):
         ctx.violation('TeChunkedParser result is not what Chunked.tla allows: input %r relaxed=%d; final results over the schedules: %s' % (
             bytes(o['in'])[:120], o['relaxed'], fin[:4]),
             {'class': cls, 'input_hex': hx(bytes(o['in'])), 'relaxed': o['relaxed'], 'family': cases[live[j]][3],
-             'runs': [{'cap': r['cap'], 'steps': [[s['n'], s['oc'], s['used'], s['outn']] for s in r['steps']][:12]} for r in o['runs']][:12]})
+             'runs': [{'caps': r['caps'], 'steps': [[s['n'], s['oc'], s['used'], s['outn']] for s in r['steps']][:12]} for r in o['runs']][:12]})
         if len(ctx.violations) >= 5:
             break
     pset = set(prej)
@@ -368,7 +369,7 @@ def run(ctx):
     for o in recs:
         for r in o['runs']:
             oc = r['steps'][-1]['oc']
-            ctx.cov['final_outcomes'][oc] = ctx.cov['final_outcomes'].get(oc, 0) + 1
+            ctx.cov['final_outcomes'][oc] = ctx.cov['final_outcomes'].get(oc, 0) + len(r['caps'])
     ctx.cov['max_input_bytes'] = max(len(o['in']) for o in recs)
     ctx.cov['ub_reports'] = sum(1 for o in recs if o['ub'])
     for o in (recs[0], recs[len(recs) // 3], recs[len(recs) // 2]):
